@@ -56,14 +56,66 @@ fn profile_for(prop: &str, variant: u64) -> Profile {
             p.w_enter = 12;
             p.w_tab = 7;
         }
+        "C11" => {
+            p.w_char = 25;
+            p.w_word = 22;
+            p.w_tab = 22;
+            p.w_left = 8;
+            p.w_backspace = 6;
+            p.w_enter = 4;
+            p.w_up = 1;
+            p.w_down = 1;
+            p.w_pool_line = 1;
+            p.sets = vec![SetKind::FixA, SetKind::FixG, SetKind::FixG, SetKind::Raw];
+            p.cmd_sizes = vec![1, 2, 3, 4, 5, 6, 7, 8, 9, 10, 13, 16, 32];
+            p.max_keys = 40;
+        }
+        "C16" => {
+            p.w_write = 3;
+            p.w_set_prompt = 2;
+            p.w_enter = 12;
+            p.w_tab = 7;
+            p.w_up = 7;
+            p.w_down = 5;
+            p.w_pool_line = 8;
+            p.help_lines = true;
+            // so that every build has many sessions that avoid exactly the facilities it lacks
+            match variant % 5 {
+                0 => {
+                    p.w_up = 0;
+                    p.w_down = 0;
+                    p.w_tab = 0;
+                    p.help_lines = false;
+                }
+                1 => {
+                    p.w_tab = 0;
+                    p.help_lines = false;
+                }
+                2 => {
+                    p.w_up = 0;
+                    p.w_down = 0;
+                    p.help_lines = false;
+                }
+                3 => {
+                    p.w_up = 0;
+                    p.w_down = 0;
+                    p.w_tab = 0;
+                }
+                _ => {}
+            }
+        }
         _ => {}
     }
     p
 }
 
 pub fn run(prop: &str, args: &Args, rep: &mut Report) {
-    let env = SessionEnv::from_build(prop_bit(prop));
-    let total: u64 = if args.thorough { 1_000_000 } else { 24_000 };
+    let mut env = SessionEnv::from_build(prop_bit(prop));
+    if prop == "C16" {
+        // every behavioural monitor, configured for this build's feature set
+        env.enabled = P_C01 | P_C05 | P_C06 | P_C10 | P_C11 | P_C13 | P_C15 | P_C16;
+    }
+    let total: u64 = if prop == "C16" { if args.thorough { 100_000 } else { 8_000 } } else if args.thorough { 1_000_000 } else { 24_000 };
     let n = args.scaled(total) / args.nshards.max(1);
     let prop_s = prop.to_string();
     run_session_cases(args, n, &env, rep, &|rng, idx| {
